@@ -2000,8 +2000,10 @@ class RegIMemOffset(OffsetOperandMixin, HasOperands, Operand):
         self.imem.decode(decoder, addr)
 
         self.mode = get_emem_reg_mode(self.reg.high4, addr)
-        if self.allowed_modes is not None:
-            assert self.mode in self.allowed_modes
+        if self.allowed_modes is not None and self.mode not in self.allowed_modes:
+            raise InvalidInstruction(
+                f"Addressing mode {self.mode} not allowed here at address {addr:#06x}"
+            )
         self._decode_offset(decoder, addr)
 
     def encode(self, encoder: Encoder, addr: int) -> None:
@@ -2036,8 +2038,8 @@ class EMemReg(OffsetOperandMixin, HasOperands, Operand):
         self.reg.decode(decoder, addr)
         self.reg.assert_r3()
         self.mode = get_emem_reg_mode(self.reg.high4, addr)
-        if self.allowed_modes is not None:
-            assert self.mode in self.allowed_modes, (
+        if self.allowed_modes is not None and self.mode not in self.allowed_modes:
+            raise InvalidInstruction(
                 f"Invalid mode: {self.mode}, allowed: {self.allowed_modes}"
             )
         self._decode_offset(decoder, addr)
